@@ -84,4 +84,12 @@ func c13Analyze(nfiles int, makefileBytes int, scripts int) {
 
 func VerifHarness_C13_Analyzer1() { c13Analyze(verifIntRange("n", 0, 1), 4, 1) }
 func VerifHarness_C13_Analyzer2() { c13Analyze(2, 2, 2) }
-func VerifHarness_C13_Analyzer3() { c13Analyze(3, 0, 1) }
+// three files out of markers of types that have several markers each (duplicates of one type
+// need not be adjacent in the sorted listing)
+func VerifHarness_C13_Analyzer3() {
+	saved := c13Markers
+	c13Markers = []string{"package.json", "node_modules", "vite.config.js", "Dockerfile", "docker-compose.yml", "requirements.txt", "setup.py",
+		"go.mod", "go.sum", "main.tf", "vars.tfvars", "Gemfile", "Rakefile", "README.md"}
+	c13Analyze(3, 0, 1)
+	c13Markers = saved
+}
